@@ -32,6 +32,8 @@ def bool? : Sexp → Option Bool
   | .atom "F" => some false
   | _ => none
 
+def renderBool (b : Bool) : String := if b then "T" else "F"
+
 def renderBytesR (r : R Bytes) : String := renderR (fun bs => (Sexp.ofBytes bs).render) r
 
 def renderPSeg : PSeg → String
